@@ -481,6 +481,37 @@ Proof.
   apply filter_In in Hin. destruct Hin as [Hin Ht]. rewrite (Hd d Hin) in Ho; [discriminate|]. exact Ht.
 Qed.
 
+Lemma index_from_range : forall {A} (l : list A) k i x, In (i, x) (index_from k l) -> k <= i < k + Z.of_nat (length l) /\ In x l.
+Proof.
+  intros A l. induction l as [|y r IH]; intros k i x H; [destruct H|]. cbn [index_from length] in *. rewrite Nat2Z.inj_succ.
+  destruct H as [H|H]; [inversion H; subst; split; [lia|left; reflexivity]|]. apply IH in H. destruct H as [H1 H2]. split; [lia|right; assumption].
+Qed.
+Lemma index_from_map_img : forall {A B} (f : A -> B) (l : list A) k,
+  index_from k (map f l) = map (fun p => (fst p, f (snd p))) (index_from k l).
+Proof. intros A B f l. induction l as [|x r IH]; intros k; cbn [map index_from]; [reflexivity|]. rewrite IH. reflexivity. Qed.
+Lemma index_from_snd_nodup : forall {A} (l : list A) k, NoDup l -> NoDup (map snd (index_from k l)).
+Proof.
+  intros A l. induction l as [|x r IH]; intros k H; cbn [index_from map]; [constructor|]. inversion H as [|? ? Hni Hr]; subst.
+  constructor; [|apply IH; assumption]. intros Hin. apply in_map_iff in Hin. destruct Hin as [[j y] [Hy Hin]]. cbn [snd] in Hy. subst y.
+  apply index_from_range in Hin. tauto.
+Qed.
+Lemma in_index_from : forall {A} (l : list A) k x, In x l -> exists i, In (i, x) (index_from k l).
+Proof.
+  intros A l. induction l as [|y r IH]; intros k x H; [destruct H|]. cbn [index_from]. destruct H as [->|H].
+  - exists k. left. reflexivity.
+  - destruct (IH (k + 1) x H) as [i Hi]. exists i. right. assumption.
+Qed.
+
+Lemma NoDup_map_filter2 : forall {A B} (f : A -> B) l, (forall a b, In a l -> In b l -> f a = f b -> a = b) -> NoDup l -> NoDup (map f l).
+Proof.
+  intros A B f l Hinj Hnd. induction Hnd as [|x r Hni Hr IH]; cbn [map]; constructor.
+  - intros Hin. apply in_map_iff in Hin. destruct Hin as [y [Hy Hin]]. apply Hni.
+    assert (y = x) by (apply Hinj; [right; assumption|left; reflexivity|assumption]). subst. assumption.
+  - apply IH. intros a b Ha Hb. apply Hinj; right; assumption.
+Qed.
+Lemma sel_width_place : forall s rel p g, sel_width (place s rel p g) = sel_width s.
+Proof. reflexivity. Qed.
+
 Lemma NoDup_prefix : forall {A} (a b : list A), NoDup (a ++ b) -> NoDup a.
 Proof.
   intros A a b. induction a as [|x r IH]; cbn [app]; intros H; [constructor|]. inversion H as [|? ? Hni Hr]; subst.
@@ -855,5 +886,175 @@ Section MuxImport.
     - intros q Hq. apply HP. apply in_app_or in Hq. apply in_or_app. destruct Hq as [Hq|[<-|[]]]; [left; assumption|right; left; reflexivity].
     - replace (done ++ p :: r) with ((done ++ [p]) ++ r) in Hnd by (rewrite <- app_assoc; reflexivity).
       rewrite map_app in Hnd. eapply NoDup_prefix. exact Hnd.
+  Qed.
+
+  (* ---- the whole message ---- *)
+  Definition gsize_of (es' : list enum_def) (X : list (Z * signal)) : Z :=
+    let eb := ebit es' 0 (filter childp X) in if eb >? 0 then eb - mstart - selw else 1.
+  Definition mx_img (gs : Z) : signal :=
+    mksignal mid (clear (s_name mx)) KMux mstart None [] 0 false fl_one fl_zero fl_zero fl_zero EmptyString
+             0 (2 ^ selw) gs (s_desc mx) fl_zero 0 [].
+
+  Lemma ims_mux : forall st S' dname dtx D,
+    Permutation sigs S' -> In (mid, mx) (index_from 0 S') ->
+    sort_by (fun a b => get_start_bit a <? get_start_bit b) D = map img S' ->
+    let X := index_from 0 S' in
+    exists st',
+      import_message_signals env st mpos (mkdmessage msgid dname (u32 (m_size m)) dtx D)
+      = Ok (st', map timg (filter plainp X) ++ [mx_img (gsize_of (is_enums st) X)] ++ map kimg (filter childp X)) /\
+      is_enums st' = is_enums st /\ is_enum_refs st' = is_enum_refs st /\
+      1 <= gsize_of (is_enums st) X <= s_gsize mx.
+  Proof.
+    intros st S' dname dtx D Hperm Hmid Hsort X.
+    pose proof Hms as [Hids [Hnames _]].
+    assert (HndS : NoDup S').
+    { eapply Permutation_NoDup; [exact Hperm|]. eapply NoDup_map_inv. exact Hids. }
+    assert (HinS : forall s, In s S' <-> In s sigs) by (intros s; split; intros H; [eapply Permutation_in; [apply Permutation_sym; exact Hperm|exact H]|eapply Permutation_in; eauto]).
+    assert (HX : forall p, In p X -> In (snd p) sigs /\ (fst p = mid <-> snd p = mx)).
+    { intros [i x] Hp. cbn [fst snd]. pose proof (index_from_range _ _ _ _ Hp) as [_ Hx]. split; [apply HinS; assumption|].
+      pose proof (ProofsIds.index_from_fst_nodup S' 0) as Hn1. pose proof (index_from_snd_nodup S' 0 HndS) as Hn2. fold X in Hn1, Hn2. split; intros E; subst.
+      - pose proof (NoDup_map_inj fst X (mid, x) (mid, mx) Hn1 Hp Hmid eq_refl) as Heq. inversion Heq; reflexivity.
+      - pose proof (NoDup_map_inj snd X (i, mx) (mid, mx) Hn2 Hp Hmid eq_refl) as Heq. inversion Heq; reflexivity. }
+    assert (Hfil : filter (fun p : Z * dsignal => ds_muxor (snd p)) (map (fun p => (fst p, img (snd p))) X) = [(mid, img mx)]).
+    { assert (G : forall l, (forall p, In p l -> In (snd p) sigs) -> NoDup (map snd l) ->
+                filter (fun p : Z * dsignal => ds_muxor (snd p)) (map (fun p => (fst p, img (snd p))) l)
+                = map (fun p => (fst p, img (snd p))) (filter (fun p => is_muxb (snd p)) l)).
+      { induction l as [|p r IH]; intros Hl Hn; [reflexivity|]. cbn [map filter fst snd].
+        assert (Hm : ds_muxor (img (snd p)) = is_muxb (snd p)).
+        { destruct (is_muxb (snd p)) eqn:E.
+          - unfold img. rewrite E. reflexivity.
+          - assert (Hne : snd p <> mx) by (intros Heq; rewrite Heq in E; congruence).
+            apply (img_fields (snd p) (Hl p (or_introl eq_refl)) Hne). }
+        rewrite Hm. cbn [map] in Hn. inversion Hn; subst. rewrite IH by (try assumption; intros q Hq; apply Hl; right; assumption).
+        destruct (is_muxb (snd p)); reflexivity. }
+      rewrite G by (try (apply index_from_snd_nodup; assumption); intros p Hp; apply HX; assumption).
+      assert (G2 : filter (fun p : Z * signal => is_muxb (snd p)) X = [(mid, mx)]).
+      { pose proof (index_from_snd_nodup S' 0 HndS) as Hn2. fold X in Hn2.
+        apply in_split in Hmid. destruct Hmid as [A [B HAB]]. fold X in HAB. rewrite HAB in *. rewrite filter_app. cbn [filter snd]. rewrite Hmxm.
+        rewrite map_app in Hn2. cbn [map snd] in Hn2.
+        assert (HA : filter (fun p : Z * signal => is_muxb (snd p)) A = []).
+        { apply Proofs.filter_nil. intros q Hq. destruct (is_muxb (snd q)) eqn:E; [|reflexivity]. exfalso.
+          destruct Hms as [_ [_ [_ [Hu _]]]].
+          assert (snd q = mx) by (apply Hu; try assumption; apply (proj1 (HX q ltac:(apply in_or_app; left; assumption)))).
+          apply NoDup_remove_2 in Hn2. apply Hn2. apply in_or_app. left. rewrite <- H. apply in_map. assumption. }
+        assert (HB : filter (fun p : Z * signal => is_muxb (snd p)) B = []).
+        { apply Proofs.filter_nil. intros q Hq. destruct (is_muxb (snd q)) eqn:E; [|reflexivity]. exfalso.
+          destruct Hms as [_ [_ [_ [Hu _]]]].
+          assert (snd q = mx) by (apply Hu; try assumption; apply (proj1 (HX q ltac:(apply in_or_app; right; right; assumption)))).
+          apply NoDup_remove_2 in Hn2. apply Hn2. apply in_or_app. right. rewrite <- H. apply in_map. assumption. }
+        rewrite HA, HB. reflexivity. }
+      rewrite G2. reflexivity. }
+    destruct mx_top as [Hmtop Hmt].
+    assert (Himx : ds_muxed (img mx) = false /\ ds_size (img mx) = selw /\ ds_name (img mx) = clear (s_name mx) /\ get_start_bit (img mx) = mstart).
+    { destruct selw_facts as [Hs _]. split; [|split; [|split]]; try (unfold img; rewrite Hmxm; reflexivity).
+      - unfold img. rewrite Hmxm. cbn [ds_size mux_dsig]. apply u32_id. fold selw. lia.
+      - apply start_top; assumption. }
+    destruct Himx as [M1 [M2 [M3 M4]]].
+    unfold import_message_signals. cbv zeta. cbn [dm_signals dm_id dm_size]. rewrite Hsort, index_from_map_img. fold X. rewrite Hfil.
+    rewrite M1.
+    destruct (loop1 X st [] [] (-1) HX) as [st1 [E1 [E2 E3]]]. cbn [app] in E1.
+    change (fold_left _ (map (fun p => (fst p, img (snd p))) X) (Ok (st, [], [], -1))) with
+      (fold_left f1 (map (fun p => (fst p, img (snd p))) X) (Ok (st, [], [], -1))).
+    rewrite E1. cbn [bind]. rewrite M4.
+    assert (Hlast : last_of (-1) X < mux_end).
+    { apply last_bound; [intros p Hp; apply HX; assumption|]. unfold mux_end. destruct selw_facts as [? [? [? [? ?]]]].
+      destruct (proj1 tops_geo mx Hmx Hmt). unfold mstart. lia. }
+    pose proof msize_bounds as Hmb. rewrite (u32_id (m_size m)) by lia.
+    assert (HTP : forall p, In p (filter plainp X) -> In (snd p) sigs /\ is_topb (snd p) = true /\ is_muxb (snd p) = false).
+    { intros p Hp. apply filter_In in Hp. destruct Hp as [Hp Hpp]. unfold plainp in Hpp. apply andb_true_iff in Hpp. destruct Hpp as [P1 P2].
+      apply negb_true_iff in P2. split; [apply HX; assumption|auto]. }
+    assert (HCH : forall p, In p (filter childp X) -> In (snd p) sigs /\ is_topb (snd p) = false).
+    { intros p Hp. apply filter_In in Hp. destruct Hp as [Hp Hpp]. unfold childp in Hpp. apply negb_true_iff in Hpp. split; [apply HX; assumption|assumption]. }
+    pose proof (loop2 st1 (last_of (-1) X) (map ent (filter childp X)) (filter plainp X) [] Hlast) as E4. cbn [app map] in E4.
+    change (fold_left _ (map ent (filter plainp X)) (Ok (st1, [], map ent (filter childp X)))) with
+      (fold_left (f2 st1 (m_size m) (last_of (-1) X)) (map ent (filter plainp X)) (Ok (st1, [], map ent (filter childp X)))).
+    rewrite E4 by (try assumption; apply NoDup_map_filter; apply index_from_snd_nodup; assumption). cbn [bind].
+    (* the multiplexer *)
+    unfold import_mux_signal. rewrite M2, M3, M4.
+    fold (ebit (is_enums st1) 0 (filter childp X)).
+    destruct (ebit_spec (is_enums st1) (filter childp X) 0 HCH) as [B1 [B2 B3]].
+    assert (Hbeyond : existsb (fun p : subtree * dsignal => sig_size (is_enums st1) (fst (fst p)) + get_start_bit (snd p) >? m_size m * 8)
+                        (map ent (filter childp X)) = false).
+    { destruct (existsb _ _) eqn:E; [|reflexivity]. exfalso. apply existsb_exists in E. destruct E as [e [He Hgt]].
+      apply in_map_iff in He. destruct He as [p [<- Hp]]. destruct (HCH p Hp) as [Hs Ht].
+      rewrite (proj1 (child_entry (is_enums st1) p Hs Ht)) in Hgt. destruct (child_geo _ Hs Ht) as [_ [_ [_ [G4 _]]]]. unfold cend in Hgt. lia. }
+    rewrite Hbeyond.
+    destruct selw_facts as [Hsw [Hgc [Hg1 [Hgs1 Hg32]]]].
+    replace (selw =? 0) with false by lia.
+    assert (Hcv : calc_value_from_size selw = 2 ^ selw).
+    { unfold calc_value_from_size. replace (selw <=? 0) with false by lia. replace (selw <? 63) with true by lia. reflexivity. }
+    rewrite Hcv. assert (H2p : 0 < 2 ^ selw) by (apply Z.pow_pos_nonneg; lia). replace (2 ^ selw <=? 0) with false by lia.
+    set (eb := ebit (is_enums st1) 0 (filter childp X)) in *.
+    assert (Hgsz : 1 <= (if eb >? 0 then eb - mstart - selw else 1) <= s_gsize mx).
+    { destruct (eb >? 0) eqn:Eeb; [|lia]. destruct (proj1 tops_geo mx Hmx Hmt) as [T1 _].
+      assert (Hub : eb <= mstart + selw + s_gsize mx).
+      { apply B3; [unfold mstart; lia|]. intros p Hp. destruct (HCH p Hp) as [Hs Ht]. destruct (child_geo _ Hs Ht) as [_ [_ [G3 _]]]. unfold cend. lia. }
+      split; [|lia].
+      destruct (filter childp X) as [|p0 r0] eqn:Ec; [unfold eb, ebit in Eeb; cbn in Eeb; lia|].
+      destruct (HCH p0 (or_introl eq_refl)) as [Hs Ht]. destruct (child_geo _ Hs Ht) as [G1 [G2 _]].
+      pose proof (B2 p0 (or_introl eq_refl)) as Hb. unfold cend in Hb. lia. }
+    set (gs := if eb >? 0 then eb - mstart - selw else 1) in *.
+    replace (gs <=? 0) with false by lia.
+    pose proof (mux_kids (is_enums st1) (mksignal mid (clear (s_name mx)) KMux 0 None [] 0 false fl_one fl_zero fl_zero fl_zero EmptyString 0 (2 ^ selw) gs EmptyString fl_zero 0 [])
+                  (filter childp X) [] eq_refl eq_refl) as EK. cbn [app map] in EK.
+    unfold mux_children.
+    change (fold_left _ (map ent (filter childp X)) (Ok ([], []))) with
+      (fold_left (kstep (is_enums st1) (mksignal mid (clear (s_name mx)) KMux 0 None [] 0 false fl_one fl_zero fl_zero fl_zero EmptyString 0 (2 ^ selw) gs EmptyString fl_zero 0 []))
+                 (map ent (filter childp X)) (Ok ([], []))).
+    rewrite EK.
+    2:{ intros p Hp. destruct (HCH p Hp) as [Hs Ht]. split; [assumption|]. split; [assumption|]. cbn [s_gsize].
+        pose proof (B2 p Hp) as Hb. unfold cend in Hb. unfold gs. destruct (eb >? 0) eqn:Eeb; [lia|].
+        destruct (child_geo _ Hs Ht) as [G1 [G2 _]]. destruct (proj1 tops_geo mx Hmx Hmt) as [T1 _]. unfold mstart in *. lia. }
+    2:{ apply NoDup_map_filter. apply index_from_snd_nodup. assumption. }
+    cbn [bind fst snd app].
+    (* the final insertion of the multiplexer with its children *)
+    unfold desc_of in Henvx.
+    assert (Hmx1 : (match lookup key_eqb (msgid, clear (s_name mx)) (ie_sig_desc env) with
+                    | Some d => set_desc (mksignal mid (clear (s_name mx)) KMux 0 None [] 0 false fl_one fl_zero fl_zero fl_zero EmptyString 0 (2 ^ selw) gs EmptyString fl_zero 0 []) d
+                    | None => mksignal mid (clear (s_name mx)) KMux 0 None [] 0 false fl_one fl_zero fl_zero fl_zero EmptyString 0 (2 ^ selw) gs EmptyString fl_zero 0 [] end)
+                   = place (mx_img gs) 0 None []).
+    { unfold mx_img. destruct (lookup key_eqb (msgid, clear (s_name mx)) (ie_sig_desc env)); cbn; rewrite <- Henvx; reflexivity. }
+    rewrite Hmx1. rewrite app_nil_r.
+    assert (Hsw2 : sel_width (mx_img gs) = selw).
+    { unfold sel_width. cbn [s_gcount mx_img]. apply ProofsIds.calc_size_sel. lia. }
+    rewrite msg_insert_ok_g.
+    - cbn [bind]. exists (set_sigmap st1 (((msgid, clear (s_name mx)), (mpos, mid)) :: is_sigmap st1)).
+      split; [|split; [exact E2|split; [exact E3|]]].
+      + f_equal. f_equal. f_equal. f_equal. unfold gsize_of. rewrite <- E2. reflexivity.
+      + unfold gsize_of. rewrite <- E2. fold eb. exact Hgsz.
+    - cbn [s_name place mx_img]. rewrite map_map. intros Hin. apply in_map_iff in Hin. destruct Hin as [q [Hq Hqin]].
+      destruct (HTP q Hqin) as [Hqs [Hqt Hqm]]. destruct (plain_facts _ Hqs Hqt Hqm) as [_ [_ [_ Hqne]]].
+      cbn [s_name timg place std_imp] in Hq. rewrite (proj1 (img_fields (snd q) Hqs Hqne)) in Hq.
+      apply Hqne. apply (NoDup_map_inj (fun s => clear (s_name s)) sigs); assumption.
+    - intros x Hx Hin. apply in_map_iff in Hx. destruct Hx as [c [<- Hc]]. destruct (HCH c Hc) as [Hcs Hct].
+      assert (Hcne : snd c <> mx) by (intros Heq; rewrite Heq in Hct; congruence).
+      rewrite map_map in Hin. apply in_map_iff in Hin. destruct Hin as [q [Hq Hqin]].
+      destruct (HTP q Hqin) as [Hqs [Hqt Hqm]]. destruct (plain_facts _ Hqs Hqt Hqm) as [_ [_ [_ Hqne]]].
+      cbn [s_name timg kimg place std_imp] in Hq. rewrite (proj1 (img_fields (snd q) Hqs Hqne)), (proj1 (img_fields (snd c) Hcs Hcne)) in Hq.
+      assert (snd q = snd c) by (apply (NoDup_map_inj (fun s => clear (s_name s)) sigs); assumption). congruence.
+    - cbn [map s_name place mx_img]. constructor.
+      + rewrite map_map. intros Hin. apply in_map_iff in Hin. destruct Hin as [c [Hq Hc]]. destruct (HCH c Hc) as [Hcs Hct].
+        assert (Hcne : snd c <> mx) by (intros Heq; rewrite Heq in Hct; congruence).
+        cbn [s_name kimg place std_imp] in Hq. rewrite (proj1 (img_fields (snd c) Hcs Hcne)) in Hq.
+        apply Hcne. apply (NoDup_map_inj (fun s => clear (s_name s)) sigs); assumption.
+      + rewrite map_map. 
+        assert (Hext2 : map (fun x => s_name (kimg x)) (filter childp X) = map (fun p => clear (s_name (snd p))) (filter childp X)).
+        { apply map_ext_in. intros c Hc. destruct (HCH c Hc) as [Hcs Hct].
+          assert (Hcne : snd c <> mx) by (intros Heq; rewrite Heq in Hct; congruence).
+          cbn [s_name kimg place std_imp]. apply (img_fields (snd c) Hcs Hcne). }
+        rewrite Hext2. rewrite <- (map_map snd (fun s => clear (s_name s))).
+        eapply NoDup_map_filter2; [|apply NoDup_map_filter; apply index_from_snd_nodup; assumption].
+        intros a b Ha Hb Hab. apply (NoDup_map_inj (fun s => clear (s_name s)) sigs); try assumption.
+        * apply in_map_iff in Ha. destruct Ha as [pa [<- Hpa]]. apply (HCH pa Hpa).
+        * apply in_map_iff in Hb. destruct Hb as [pb [<- Hpb]]. apply (HCH pb Hpb).
+    - unfold mstart. destruct (proj1 tops_geo mx Hmx Hmt). assumption.
+    - unfold sig_size. cbn [s_kind place mx_img s_gsize]. rewrite sel_width_place, Hsw2. lia.
+    - unfold sig_size. cbn [s_kind place mx_img s_gsize]. rewrite sel_width_place, Hsw2.
+      destruct (proj1 tops_geo mx Hmx Hmt) as [T1 T2]. rewrite sig_size_mx in T2. unfold mstart. lia.
+    - intros d Hd _. apply in_map_iff in Hd. destruct Hd as [q [<- Hqin]].
+      destruct (HTP q Hqin) as [Hqs [Hqt Hqm]]. destruct (plain_facts _ Hqs Hqt Hqm) as [_ [Hqsz [_ Hqne]]].
+      unfold sig_size, overlaps. cbn [s_kind s_rel s_size s_gsize timg place std_imp mx_img]. rewrite sel_width_place, Hsw2.
+      rewrite (proj1 (proj2 (img_fields (snd q) Hqs Hqne))).
+      destruct (proj2 tops_geo mx (snd q) Hmx Hqs Hmt Hqt (fun E => Hqne (eq_sym E))) as [Hd|Hd]; rewrite ?sig_size_mx, ?Hqsz in Hd; unfold mstart in *; lia.
   Qed.
 End MuxImport.
